@@ -13,6 +13,11 @@ Res == {[r |-> "ident", cap |-> 512], [r |-> "number", cap |-> 512], [r |-> "str
         [r |-> "resb", cap |-> 65536], [r |-> "data_fill", cap |-> 65536], [r |-> "db_items", cap |-> 512],
         [r |-> "label_count", cap |-> 512], [r |-> "line_length", cap |-> 4096], [r |-> "comment_length", cap |-> 4096],
         [r |-> "define_recursion", cap |-> 2], [r |-> "define_chain", cap |-> 128], [r |-> "include_self", cap |-> 1]}
+\* two nestings multiplied: a recursion that is unbounded in one dimension (a file or macro that includes / invokes itself)
+\* with len levels of the other nesting wrapped around every step; every such input is over the limit and must be an error,
+\* whatever the per-level limits are (the recursion of assemble() is as deep as the product)
+Prod == {"prod_include_if", "prod_macro_if", "prod_include_macro_if", "prod_include_repeat1"}
+ProdCases == {[res |-> r, cap |-> 1, len |-> n] : r \in Prod, n \in {2, 16, 64, 126, 127, 128}}
 Lens(cap) == {1, cap \div 2, cap - 1, cap, cap + 1, cap + 2, 2 * cap, 2 * cap + 1} \cup (IF cap <= 4096 THEN {16 * cap} ELSE {})
 \* recursion in the code follows the nesting of the input: these are also tried far beyond any stack
 Deep == {"nest_paren", "nest_unary", "nest_unary_paren", "nest_unary_operand", "nest_if", "nest_ifexpr_not", "nest_ifexpr_paren"}
@@ -24,6 +29,7 @@ Stmts  == {"set", "set_existing", "label", "db", "insn", "macro", "define", "equ
            "include", "binfile", "repeat", "align", "entry_point", "call_undefined", "undef"}
 PassCases == {[res |-> "pass_only", cap |-> 1, len |-> 1, guard |-> g, later |-> d, stmt |-> t] : g \in Guards, d \in Laters, t \in Stmts}
 Init == \/ c \in PassCases
+        \/ c \in ProdCases
         \/ \E x \in Res : \E n \in Lens(x.cap) \cup (IF x.r \in Deep THEN {8192, 300000} ELSE {}) :
           n >= 1 /\ c = [res |-> x.r, cap |-> x.cap, len |-> n]
 Next == FALSE /\ UNCHANGED c
